@@ -411,12 +411,15 @@ def canon_model(im, line):
             out.append(t)
             report = "R" in im.script[h]["flags"]
             ctab = None
+            stray = {}          # file id -> bytes the failing child wrote into it instead of the error pipe
             if cfull.startswith("X:"):
                 ctab = ptab(cfull[2:])
             elif cfull.startswith("F:"):
                 _, err, wrote = cfull.split(":")
                 if wrote not in ("-", "ebadf") and 1 <= int(wrote) <= 63:
                     sizes[int(wrote)] = sizes.get(int(wrote), 0) + 4
+                elif wrote not in ("-", "ebadf"):
+                    stray[int(wrote)] = sorted((int(err) & 0xffffffff).to_bytes(4, "little"))
             if report:
                 out.append("c%d:%s" % (h, "-" if ctab is None else tbl(ctab)))
             out.append("q%d:%s" % (h, tbl(q)))
@@ -428,6 +431,8 @@ def canon_model(im, line):
                     slot, fd = ent.split("=")
                     pf = q.get(int(fd), (None, 0))[0]
                     tags = sorted(cfd for cfd, e in (ctab or {}).items() if pf is not None and e[0] == pf + 1)
+                    if pf is not None and pf + 1 in stray:
+                        tags = stray[pf + 1]
                     ents.append("%s=%s/%s" % (slot, fd, ".".join(map(str, tags))))
                 out.append("t%d:%s" % (h, ";".join(ents)))
             if i < len(toks) and toks[i].startswith("b%d:" % h):
@@ -596,7 +601,7 @@ def main():
         import json
         rp = json.load(open(chk.replay))
         corpus = [rp["case"]] if "case" in rp else corpus
-    nsh, nex = (3000, 1500) if thorough else (260, 140)
+    nsh, nex = (6000, 3000) if thorough else (700, 350)
     cases = corpus + [gen_shuffle(rng) for _ in range(nsh)] + [gen_exits(rng, 30 if thorough else 16) for _ in range(nex)]
     wdir = os.path.join(chk.scratch.dir, "c12files")
     os.makedirs(wdir, exist_ok=True)
